@@ -21,6 +21,12 @@ func runC33(x *simkit.Exec) {
 		x.Troublef("fixtures: %v", err)
 		return
 	}
+	// One worker per pool makes a worker handle several blocks in a row (errors remembered across items
+	// are only reachable that way); the order of its reads then follows Go map iteration inside thanos,
+	// so such runs are not bit-reproducible and violations are confirmed by repeated replays.
+	if x.Bool("sequentialWorkers", 1, 3) {
+		sc.cfg.fetchConc = 1
+	}
 	x.Sample = sc.describe()
 	ref := sc.execute(x, "ref", lcOpts{})
 	if x.Failed() {
@@ -40,7 +46,8 @@ func runC33(x *simkit.Exec) {
 		points = append(points[:i], points[i+1:]...)
 	}
 	for _, k := range points {
-		r := sc.execute(x, fmt.Sprintf("fail%d", k), lcOpts{syncReadFail: k, checkNoDestr: true})
+		body := x.Bool("bodyFail", 1, 3)
+		r := sc.execute(x, fmt.Sprintf("fail%d", k), lcOpts{syncReadFail: k, bodyFail: body, checkNoDestr: true})
 		if x.Failed() {
 			return
 		}
